@@ -229,6 +229,15 @@ def cases(ctx):
                "process_validate", "inplace_then_translate"):
         for k in ("face_normals", "vertex_normals", "edges", "edges_unique", "face_adjacency", "volume"):
             yield {"kind": "history", "start": "box", "steps": [{"reads": [k], "op": op, "seed": 7}]}
+    # query structures: warmed by one query, the arrays edited, then asked again with nothing read in between
+    for eng in ("default", "triangle"):
+        for warm in ("intersects_any", "intersects_location", None):
+            for edit in ("inplace_x", "reassign", "faces_inplace", "translate"):
+                for q in ("intersects_any", "intersects_first", "intersects_id_single", "intersects_location"):
+                    yield {"kind": "query_history", "engine": eng, "warm": warm, "edit": edit, "query": q}
+    for warm in ("contains", "nearest"):
+        for edit in ("inplace_x", "reassign", "translate"):
+            yield {"kind": "query_history", "engine": "default", "warm": warm, "edit": edit, "query": warm}
     while True:
         start = rng.choice(["box", "tet", "two", "open", "ico", "dupes", "soup", "boxsoup"])
         steps = []
@@ -463,7 +472,65 @@ def _get(m, k):
         return ("EXC", type(e).__name__)
 
 
+def _run_query_history(c):
+    """ray / proximity structures: one query builds them, the arrays are edited, and the very next thing asked is
+    another query (nothing else is read in between)"""
+    import trimesh
+    from trimesh.ray import ray_triangle
+
+    def mk():
+        return trimesh.creation.icosphere(subdivisions=1, radius=1.0)
+
+    def rays():
+        g_ = np.array([[x, y, -5.0] for x in (-0.6, -0.2, 0.1, 0.5, 6.2, 5.9) for y in (-0.5, 0.05, 0.4)])
+        return g_, np.tile([0.0, 0.0, 1.0], (len(g_), 1))
+
+    def engine(mesh):
+        return mesh.ray if c["engine"] == "default" else ray_triangle.RayMeshIntersector(mesh)
+
+    def ask(mesh, eng, q):
+        o_, d_ = rays()
+        if q == "intersects_any":
+            return eng.intersects_any(o_, d_).tolist()
+        if q == "intersects_first":
+            return eng.intersects_first(o_, d_).tolist()
+        if q == "intersects_id_single":
+            t_, r_ = eng.intersects_id(o_, d_, multiple_hits=False)
+            return sorted(zip(r_.tolist(), t_.tolist()))
+        if q == "intersects_location":
+            loc, r_, t_ = eng.intersects_location(o_, d_)
+            return sorted(zip(r_.tolist(), np.round(loc[:, 2], 6).tolist()))
+        if q == "contains":
+            return mesh.contains(o_ * [1, 1, 0]).tolist()
+        if q == "nearest":
+            return np.round(mesh.nearest.on_surface(o_ * [1, 1, 0.1])[1], 6).tolist()
+        raise KeyError(q)
+
+    m = mk()
+    eng = engine(m)
+    if c["warm"]:
+        ask(m, eng, c["warm"])
+    if c["edit"] == "inplace_x":
+        m.vertices[:, 0] += 6.0
+    elif c["edit"] == "reassign":
+        m.vertices = np.array(m.vertices) + [6.0, 0.0, 0.0]
+    elif c["edit"] == "faces_inplace":
+        m.faces[:40] = m.faces[0]
+    elif c["edit"] == "translate":
+        m.apply_translation([6.0, 0.0, 0.0])
+    got = ask(m, eng, c["query"])
+    f = trimesh.Trimesh(np.array(m.vertices), np.array(m.faces), process=False)
+    want = ask(f, engine(f), c["query"])
+    stale = []
+    if got != want:
+        stale.append({"step": 0, "op": "edit_" + c["edit"], "key": "query." + c["query"], "read_before": bool(c["warm"]),
+                      "reads_before": 1})
+    return {"stale": stale, "done": [{"op": c["edit"]}], "kept": []}
+
+
 def run_case(c):
+    if c.get("kind") == "query_history":
+        return _run_query_history(c)
     keys = stable_keys()
     m = _start(c["start"])
     # a twin that goes through the same mutators and is never read: what was read before a mutation must not change
@@ -594,4 +661,6 @@ def compare(c, o, m):
 
 
 def nontrivial(c, o):
+    if c.get("kind") == "query_history":
+        return bool(c["warm"])
     return any(st["reads"] for st in c["steps"])
